@@ -72,9 +72,11 @@ type RunOpts struct {
 	MaxWait         time.Duration
 	// MaxIdle > 0: the harness also closes the client when neither a request nor a delivered unit
 	// was seen for that long (RunResult.Idle); MaxWait then only caps the whole run
-	MaxIdle time.Duration
-	AfterCloseWait  time.Duration // how long Wait() may take after the harness closed the client (default 6 s)
-	SkipLeakCheck   bool
+	MaxIdle        time.Duration
+	AfterCloseWait time.Duration // how long Wait() may take after the harness closed the client (default 6 s)
+	SkipLeakCheck  bool
+	// DecodeErrDelay makes the OnDecodeError callback take that long
+	DecodeErrDelay time.Duration
 }
 
 func (o RunOpts) afterClose() time.Duration {
@@ -165,6 +167,9 @@ func RunClient(o RunOpts) *RunResult {
 		OnDownloadSegment:         func(string) {},
 		OnDownloadPart:            func(string) {},
 		OnDecodeError: func(err error) {
+			if o.DecodeErrDelay > 0 {
+				time.Sleep(o.DecodeErrDelay) // a slow user callback
+			}
 			mu.Lock()
 			res.DecodeErrors = append(res.DecodeErrors, err.Error())
 			if waited {
